@@ -108,6 +108,7 @@ class Run:
         self.panics = []
         self.loaded = 0
         self.byte_rejects = 0
+        self.byte_notes = []
         self.ran = 0
 
 
@@ -150,8 +151,8 @@ def judge(run, verdicts, name, recs, cases, v, rejects):
             what = "lex %s: compiled and loaded, but the run %s: expected %s, printed %s" % (
                 json.dumps(i, sort_keys=True), "prints other bytes than the literal holds" if rej["why"] == "output-mismatch"
                 else "ended with " + rej["cls"], json.dumps(case["expect"])[:120], json.dumps(rec.get("out", "-"))[:120])
-            verdicts.add("C06|bytes|%s|%s|%s|%s" % (i["fam"], i["a"], i["b"], rej["why"]), what,
-                         {"universe": "lex", "case": case, "observed": {"ev": rec["ev"], "out": rec.get("out", "-"), "detail": rec.get("detail", "")}})
+            # C06 states "loads", not "prints the literal's bytes" (that is C01's statement): a note, never a C06 violation
+            run.byte_notes.append(("C06|bytes|%s|%s|%s|%s" % (i["fam"], i["a"], i["b"], rej["why"]), what))
             run.byte_rejects += 1
             continue
         if rej["why"] != "load-error":
@@ -376,6 +377,8 @@ def run(ctx):
     # 5. negative controls
     nneg = negative_controls(wd, ctx, cases, recs, tf)
 
+    for (sig, what) in run_.byte_notes[:10]:
+        print("NOTE loaded chunk prints other bytes than the literal holds (C06 holds: it loads; C01's subject): %s :: %s" % (sig, what[:300]))
     for (rej, rec) in run_.panics[:10]:
         print("NOTE compiler panic (not an accepted program; C07's subject): %s %s :: %s" % (
             rej["u"], json.dumps(rej["id"], sort_keys=True), rec.get("detail", "")[:200]))
@@ -394,7 +397,7 @@ def run(ctx):
            universe_cases=len(cases), cases_per_family=fam_sizes, outcome_counts=run_.counts,
            chunks_run_and_output_compared=run_.ran,
            rejected_by_compiler=sum(c.get("rejected", 0) for c in run_.counts.values()),
-           compiler_panics=len(run_.panics), load_refusals_by_family_and_class=loaderr_by_class,
+           compiler_panics=len(run_.panics), byte_mismatch_notes=len(run_.byte_notes), load_refusals_by_family_and_class=loaderr_by_class,
            c01_universe_programs=len(sem_all), c01_universe_validated=len(sem_cases), corpus_files=len(crecs),
            trace_action_counts={a: run_.coverage[a][1] for a in sorted(run_.coverage)},
            spec_assumptions_checked=SPEC_ASSUMES, negative_controls_rejected=nneg,
